@@ -574,6 +574,12 @@ MUTANTS = [
     M("benign-G6-3-constructor-pointer", ["C05", "C06", "C09", "C10", "C17"], base="G6-3", benign=True),
     M("G6-3-constructors-swapped", ["C05"], (TK, "    if flag == \"s\" {\n        RankPair::Suited\n    } else {\n        RankPair::Ofsuit\n    }", "    if flag == \"s\" {\n        RankPair::Ofsuit\n    } else {\n        RankPair::Suited\n    }"), base="G6-3"),
     M("G6-3-flag-letter", ["C05"], (TK, "    if flag == \"s\" {", "    if flag == \"o\" {"), base="G6-3"),
+    M("benign-I6-3-byte-parser", ["C05", "C06", "C09", "C10", "C17"], base="I6-3", benign=True),
+    M("I6-3-kind-letter-o", ["C05"], (TK, "                b's' => RankPair::Suited,", "                b'o' => RankPair::Suited,"), base="I6-3"),
+    M("I6-3-wrong-byte", ["C05"], (TK, "(rank_at(0), rank_at(1), rank_at(5))", "(rank_at(0), rank_at(1), rank_at(4))"), base="I6-3"),
+    M("I6-3-unguarded-byte", ["C09"], (TK, "        let bytes = s.as_bytes();\n", "        let bytes = s.as_bytes();\n        let _first = bytes[0];\n"), base="I6-3"),
+    M("c02-row-skip-before-scan", ["C02"], (FE, "        let turn = self.current_deck[self.current_turn_index as usize];\n", "        let turn = self.current_deck[self.current_turn_index as usize];\n        if self.player_entries.iter().any(|e| e.iter().any(|(cp, _)| cp[0] == turn || cp[1] == turn)) && self.current_turn_index < self.turn_to {\n            self.current_turn_index += 1;\n            self.current_river_index = self.current_turn_index + 1;\n            self.current_player_indexes.fill(0);\n            return Some(None);\n        }\n")),
+    M("c02-advance-although-room", ["C02"], (FE, "        if let Some(player_index_to_increment) = player_index_to_increment {\n            self.current_player_indexes[player_index_to_increment] += 1;", "        if let (Some(player_index_to_increment), true) = (player_index_to_increment, self.current_river_index % 2 == 0) {\n            self.current_player_indexes[player_index_to_increment] += 1;")),
     M("benign-F3-3-computed-flush-weight", ["C01", "C07", "C08"], base="F3-3", benign=True),
     M("F3-3-unreversed", ["C01", "C07"], (MH, "1 << (12 - u8::from(card.rank()))", "1 << u8::from(card.rank())"), base="F3-3"),
     M("F3-3-off-by-one", ["C01", "C07"], (MH, "1 << (12 - u8::from(card.rank()))", "1 << (13 - u8::from(card.rank()))"), base="F3-3"),
